@@ -19,7 +19,11 @@ RULE = ('Schematic(obj, placeAndRoute=True) built in a child process (20 s alarm
         'fan-out, register feedback incl. q->own d, edges spanning several columns, one wire on two pins), observer children without outputs (py4hw.Scope on wires, py4hw.Waveform on wires or on '
         'PORTS of the drawn block) created first / in the middle / last, (d) size class: chains of '
         '400/800 (thorough up to 900) instances created output-first, input-first or in random order, drawn under the interpreter '
-        'default recursion limit; the object graph '
+        'default recursion limit; (e) fan-in class: every n-input library block (And, Or, Nor, Xor, Concatenate*, Scope, Waveform) at fan-ins '
+        '2,3,4,8,13,16,17,32,64,(128,256,)300 (thorough also 24..400); (f) history class: several Schematic objects in ONE process over '
+        'blocks of one hierarchy that share Wire objects (enclosing system, block, structural children, a grandchild; parent-first, '
+        'child-first, the same block twice, sibling after sibling, interleaved), every drawing judged by the full oracle plus '
+        '"every net endpoint is a symbol object of this drawing"; the object graph '
         '(objs, nets, symbol_matrix) is judged offline. non-trivial = the drawing needed a pass-through or feedback marker, or has '
         'fan-out > 1, or >= 8 instances; distinct by content hash of the case')
 SHARDS = {'quick': 1, 'thorough': 16}
@@ -27,6 +31,11 @@ TIMEOUT = {'quick': 600, 'thorough': 3000}
 MIN_NONTRIVIAL = {'quick': 100, 'thorough': 3000}
 
 LIMIT_S = 20
+FANINS = [2, 3, 4, 8, 13, 16, 17, 32, 64, 128, 256, 300]
+WIDE_CLASSES = ['And', 'Or', 'Nor', 'Xor', 'ConcatenateMSBF', 'ConcatenateLSBF', 'Scope', 'Waveform']
+QUICK_BIG_ONLY_FOR_SYMBOLS = (128, 256)
+SCHEDULES = ['parent_child', 'child_parent', 'twice', 'siblings', 'interleaved']
+N_MULTI_NET = {'quick': 45, 'thorough': 600}
 N_NET = {'quick': 400, 'thorough': 24000}
 BATCH = 150
 MAX_TIMEOUTS = 3
@@ -44,6 +53,10 @@ def assumptions(run):
     run.assume('overlap is judged among instance and port symbols only (markers excluded), on (x, y, getWidth(), getHeight())')
     run.assume('termination = the constructor returns within %d s (alarm in the child; unchanged tree needs < 1 s for every case); '
                'a constructor that raises yields no schematic and is a violation as well' % LIMIT_S)
+    run.assume('a schematic is a function of the block as it is when Schematic() is called: drawings made earlier in the same process (of the '
+               'same block, its parent, a child, a sibling) must not change it; every symbol a net ends on is an object of this drawing '
+               '(member of its objs)')
+    run.assume('n-input library blocks are legal at any fan-in the constructor accepts; the pins of one symbol are distinct points')
     run.assume('exceptions swallowed by placeAndRoute ("WARNING: error ...") are counted; the verdict comes from the object graph')
 
 
@@ -108,9 +121,33 @@ def workload(tier, seed, shard):
         chains += [(800, 'random', 'Reg'), (400, 'input_first', 'HLeaf'), (800, 'output_first', 'Reg')]
     for k, (n, o, c) in enumerate(chains):
         cases.append(dict(type='chain', n=n, order=o, cls=c, w=1 if k % 2 == 0 else 4, order_seed=seed * 1000 + k))
+    # fan-in class: every n-input library block at a geometric family of fan-ins (the pin pitch of a symbol may depend on n)
+    fanins = FANINS + ([24, 100, 200, 240, 241, 255, 257, 400] if tier == 'thorough' else [])
+    for cls in WIDE_CLASSES:
+        for k, n in enumerate(fanins):
+            if tier == 'quick' and n in QUICK_BIG_ONLY_FOR_SYMBOLS and cls not in ('And', 'Or'):
+                continue    # quick: the classes drawn with the generic instance symbol go 2..64 and the maximum; And/Or (own symbols) all
+            cases.append(dict(type='gate', cls=cls, n=n, w=1 if (k + len(cls)) % 2 else 4))
+    nets = []
     for i in range(N_NET[tier]):
         rnd = rng(seed, 'C18net', i)
-        cases.append(dict(type='net', plan=c18net.gen_netlist(rnd, big=(i % 5 == 4), observer=(i % 12 == 5))))
+        nets.append(dict(type='net', plan=c18net.gen_netlist(rnd, big=(i % 5 == 4), observer=(i % 12 == 5))))
+    cases += nets
+    # history class: several Schematic objects in ONE process over blocks of one hierarchy (they share Wire objects): the enclosing
+    # system, the block, its structural children and a grandchild, drawn parent-first, child-first, twice, sibling after sibling,
+    # interleaved.  Bases: every structural library block, library blocks as a child, generated netlists (with library children).
+    bases = [c for c in cases if c['type'] == 'block']
+    if tier == 'quick':
+        seen_b = set()
+        bases = [c for c in bases if not (c['block'] in seen_b or seen_b.add(c['block']))]
+    bases += [c for c in cases if c['type'] == 'child'][::(7 if tier == 'quick' else 2)]
+    with_lib = [c for c in nets if any(nd['cls'] == 'Lib' for nd in c['plan']['nodes'])]
+    _wl = set(id(c) for c in with_lib)
+    bases += with_lib[:N_MULTI_NET[tier]] + [c for c in nets if id(c) not in _wl][:N_MULTI_NET[tier] // 3]
+    for k, b in enumerate(bases):
+        sch = SCHEDULES if tier == 'thorough' else [SCHEDULES[(k + seed) % len(SCHEDULES)]]
+        for sc in sch:
+            cases.append(dict(type='multi', schedule=sc, base=dict((k_, v) for k_, v in b.items() if k_ != 'idx')))
     cases = shard_slice(cases, shard)
     for k, c in enumerate(cases):
         c['idx'] = k
@@ -199,13 +236,19 @@ def describe(case):
         return '%s%s%r' % ('child ' if case['type'] == 'child' else '', case['block'], tuple(case['cfg']) if isinstance(case['cfg'], (list, tuple)) else case['cfg'])
     if case['type'] == 'chain':
         return 'chain of %d %s created %s' % (case['n'], case['cls'], case['order'])
+    if case['type'] == 'gate':
+        return '%d-input %s (w=%d)' % (case['n'], case['cls'], case['w'])
+    if case['type'] == 'multi':
+        return 'drawings %s of the hierarchy of %s in one process' % (case['schedule'], describe(case['base']))
     return 'netlist(%d nodes)' % len(case['plan']['nodes'])
 
 
 def judge(run, case, res):
     run.ev()
     cls = case['block'] if case['type'] == 'block' else ('child:' + case['block'] if case['type'] == 'child' else
-                                                         'chain' if case['type'] == 'chain' else 'netlist')
+                                                         'chain' if case['type'] == 'chain' else
+                                                         'wide:' + case['cls'] if case['type'] == 'gate' else
+                                                         'multi:' + case['schedule'] if case['type'] == 'multi' else 'netlist')
     kase = dict((k, v) for k, v in case.items() if k != 'idx')
     if 'harness_error' in res:
         run.inconclusive.append('harness error on %s: %s' % (describe(case), res['harness_error'][:300]))
@@ -230,6 +273,9 @@ def judge(run, case, res):
         if t not in run.extra['swallowed_texts'] and len(run.extra['swallowed_texts']) < 12:
             run.extra['swallowed_texts'].append(t)
     feats = c18net.features(case['plan']) if case['type'] == 'net' else {}
+    if case['type'] == 'multi':
+        # the ordinary feature counters are about single drawings; the several drawings of one hierarchy are counted apart
+        st = dict(st, passthrough=0, feedback=0)
     if st['passthrough'] or st['feedback'] or feats.get('max_fanout', 0) > 1 or res.get('children', 0) >= 8:
         run.nt(stable_hash(kase))
     if st['passthrough']:
@@ -252,6 +298,26 @@ def judge(run, case, res):
         run.count('long_chains_drawn_%d_%s' % (case['n'], case['order']))
     if case['type'] == 'child':
         run.count('library_blocks_drawn_as_child')
+    if case['type'] == 'gate':
+        run.count('wide_gates_drawn')
+        fi = run.extra.setdefault('wide_gate_fanins_drawn', {})
+        fi['%s:%d' % (case['cls'], case['n'])] = fi.get('%s:%d' % (case['cls'], case['n']), 0) + 1
+        run.nt(stable_hash(kase))
+    if case['type'] == 'multi':
+        m = res.get('multi', {})
+        run.count('multi_cases')
+        run.count('multi_drawings', m.get('drawings', 0))
+        run.count('multi_later_drawings_sharing_a_wire', m.get('later_drawings_sharing_a_wire', 0))
+        run.count('multi_shared_wires', m.get('shared_wires', 0))
+        run.count('multi_redraws_of_same_block', m.get('redraws', 0))
+        roles = m.get('roles', [])
+        for a, b in zip(roles, roles[1:]):
+            rel = run.extra.setdefault('multi_consecutive_drawings', {})
+            kk = '%s->%s' % (a.rstrip('0123456789'), b.rstrip('0123456789'))
+            rel[kk] = rel.get(kk, 0) + 1
+        if m.get('later_drawings_sharing_a_wire'):
+            run.nt(stable_hash(kase))
+    run.count('sch_net_endpoints_judged', st.get('net_endpoints_judged', 0))
     run.count('sch_pin_positions_judged', st.get('pin_positions_judged', 0))
     if feats.get('max_span', 0) >= 3:
         run.count('netlists_with_edge_spanning_3_columns')
@@ -261,9 +327,11 @@ def judge(run, case, res):
     for pr in res['problems']:
         f = dict(clause=pr['clause'], workload=case['type'])
         f.update(pr['fields'])
-        sw = res.get('swallowed_text', '')
-        f['swallowed'] = sw.split(':')[0][:40] if res['swallowed'] else None
-        f['swallowed_kind'] = (None if not res['swallowed'] else 'multiple_nets' if 'ple nets between' in sw else
+        # (several drawings in one case: the swallowed error that counts is the one of the drawing the problem is in)
+        sw = pr.get('swallowed_text', res.get('swallowed_text', ''))
+        n_sw = pr.get('swallowed', res['swallowed'])
+        f['swallowed'] = sw.split(':')[0][:40] if n_sw else None
+        f['swallowed_kind'] = (None if not n_sw else 'multiple_nets' if 'ple nets between' in sw else
                                'not_in_remove_nets' if 'not in remove nets' in sw else sw.split(':')[0][:40])
         key = 'c18_' + pr['clause']
         sig = json.dumps([key, f], sort_keys=True, default=repr)
@@ -271,7 +339,7 @@ def judge(run, case, res):
             continue
         seen.add(sig)
         run.violation(key, f, kase, expected='one symbol per child/port, disjoint, every wire one connected figure on its own pins',
-                      observed=pr['text'] + ((' | swallowed: ' + sw) if res['swallowed'] else ''),
+                      observed=pr['text'] + ((' | swallowed: ' + sw) if n_sw else ''),
                       what='%s: %s' % (describe(case), pr['text']))
     per = run.extra.setdefault('schematics_per_class', {})
     per[cls] = per.get(cls, 0) + 1
@@ -309,6 +377,10 @@ def run_check(run, tier, seed, shard):
 
 def floor(run, tier):
     c = run.counters
+    for k, n in (('multi_later_drawings_sharing_a_wire', 50), ('multi_redraws_of_same_block', 10), ('wide_gates_drawn', len(WIDE_CLASSES) * (len(FANINS) - 2)),
+                 ('sch_net_endpoints_judged', 1000)):
+        if c.get(k, 0) < n:
+            run.inconclusive.append('%s = %d (< %d): the class was not exercised' % (k, c.get(k, 0), n))
     for k, n in (('schematics_with_passthrough', 20), ('schematics_with_feedback', 20), ('netlists_with_edge_spanning_3_columns', 20), ('sch_wires_judged', 500)):
         if c.get(k, 0) < n:
             run.inconclusive.append('%s = %d (< %d): the deciding shapes were not reached' % (k, c.get(k, 0), n))
